@@ -18,6 +18,25 @@ CHECKS = {
         design_ref="DESIGN.md section 6, C25",
         note=TB + "std's partition_point is modelled by its documented specification (precondition proved). Axioms: none.",
         technique="Coq proof (induction over the text) + exhaustive model/implementation correspondence"),
+    "C12": dict(
+        category="proof",
+        text=("Coq theorems over ALL types of the Ty syntax (no pool, no bound) about the arm-for-arm model of Ty::can_fit_into / "
+              "can_cast_to / is_weak_replaceable_by / max: fit is reflexive, fit implies cast, weak-replaceable implies fit outside one "
+              "narrow refuted class (witness = the compiler's own assert panic), max never panics; the two max laws (accepts both, "
+              "order-independent) are refuted at witnesses and otherwise evaluated on the real implementation for every ordered pair of a "
+              "600-type universe. Model tied to the real crate by 360k pairs x 11 functions + 2000 front-end programs per run."),
+        design_ref="DESIGN.md section 6 C12/C13, section 10.3",
+        note=TB + "max_accepts_both / max order-independence are tested on all pairs of the universe, not proved. Intern equality = structural equality and FxHashMap = last-wins association list are assumed. Axioms: none.",
+        technique="Coq proof (nested structural induction over types) + differential correspondence + law oracle on the implementation"),
+    "C13": dict(
+        category="proof",
+        text=("Coq theorem over ALL types: a nominal value (distinct, variant, named struct) accepted by the modelled can_fit_into never lands "
+              "on a different nominal type nor on its own underlying type, outside two refuted narrow classes (own distinct wrapper; "
+              "same-shape struct into variant payload); casts distinct<->underlying accepted both ways. Same correspondence streams as C12 "
+              "plus a program-level acceptance matrix (annotation, argument, return, if/else both orders) against the ExpectMatch model."),
+        design_ref="DESIGN.md section 6 C12/C13, section 10.3",
+        note=TB + "Value preservation of distinct<->underlying casts is a lowering fact covered by C08. Assignment and binary-operand positions are not generated at program level. Axioms: none.",
+        technique="Coq proof (structural induction over types) + differential correspondence + law oracle on the implementation"),
     "C22": dict(
         category="proof",
         text=("Coq theorem: for EVERY input text the model lexer (reading of tokenizer.txt under Logos maximal munch + the "
